@@ -3,6 +3,7 @@ package main
 // Loading /repo with go/packages (tag verif) and binding //@ contract blocks to functions.
 
 import (
+	"encoding/json"
 	"go/constant"
 	"fmt"
 	"go/ast"
@@ -108,6 +109,8 @@ type Program struct {
 	knownPosts      map[string]bool
 	globalConstInit map[types.Object]constant.Value // package variables with a constant initialiser
 	errs   []string
+	lockOut map[string]map[string][]string // govc lock: collect headers instead of consulting the lock
+	rebound []string
 	bindIssues []bindIssue // contract clauses that no longer bind (reported as cannot-decide, verification continues)
 }
 
@@ -380,6 +383,7 @@ var scopeRe = regexp.MustCompile(`^(loop|closure|if)#(\d+)\s+(.*)$`)
 var clauseRe = regexp.MustCompile(`^(?:(loop|closure|if)#(\d+)\s+)?([a-z]+)(?:\[([A-Za-z0-9, ]+)\])?(?:\s+(.*))?$`)
 
 type rawClause struct {
+	fromIfat bool
 	scope   string // "", "loop", "closure", "if", "at"
 	atText  string // at "<statement source>": the statement the assert is placed before
 	ord     int
@@ -1082,6 +1086,156 @@ func (p *Program) loadExtContracts(dir string) error {
 	return nil
 }
 
+// ---- ordinal lock: loop#n / if#n clauses are anchored by ordinal.  /verif/contracts/ordinals.lock records, for every
+// such clause, the header text of the statement it was written for.  When an unrelated loop or if is inserted above
+// (the ordinals shift) the clause is re-bound to the statement that still carries the recorded header; when the header
+// itself was edited (no statement carries it any more) the ordinal is kept, so an edit of the loop condition is still
+// checked against the contract.
+var ordinalLock map[string]map[string][]string // function -> "loop"/"if" -> headers in source order when the contracts were written
+var ordinalLockLoaded bool
+
+func loadOrdinalLock() {
+	if ordinalLockLoaded {
+		return
+	}
+	ordinalLockLoaded = true
+	b, err := os.ReadFile(filepath.Join(verifRoot(), "contracts", "ordinals.lock"))
+	if err != nil {
+		return
+	}
+	_ = json.Unmarshal(b, &ordinalLock)
+}
+
+func (p *Program) stmtHeader(n ast.Node) string {
+	var sb strings.Builder
+	switch s := n.(type) {
+	case *ast.ForStmt:
+		c := *s
+		c.Body = &ast.BlockStmt{}
+		printNode(&sb, p.fset, &c)
+	case *ast.RangeStmt:
+		c := *s
+		c.Body = &ast.BlockStmt{}
+		printNode(&sb, p.fset, &c)
+	case *ast.IfStmt:
+		printNode(&sb, p.fset, s.Cond)
+	}
+	return strings.Join(strings.Fields(sb.String()), " ")
+}
+
+// alignOrdinals maps every old ordinal (1-based, index i of old) to a current ordinal: a longest common subsequence of
+// the two header lists pins the unchanged statements; an old statement whose header no longer occurs (it was edited in
+// place) takes the position that keeps it between its aligned neighbours when exactly one current statement lies there.
+func alignOrdinals(old, cur []string) []int {
+	n, m := len(old), len(cur)
+	lcs := make([][]int, n+1)
+	for i := range lcs {
+		lcs[i] = make([]int, m+1)
+	}
+	for i := n - 1; i >= 0; i-- {
+		for j := m - 1; j >= 0; j-- {
+			if old[i] == cur[j] {
+				lcs[i][j] = lcs[i+1][j+1] + 1
+			} else if lcs[i+1][j] >= lcs[i][j+1] {
+				lcs[i][j] = lcs[i+1][j]
+			} else {
+				lcs[i][j] = lcs[i][j+1]
+			}
+		}
+	}
+	out := make([]int, n)
+	i, j := 0, 0
+	for i < n && j < m {
+		if old[i] == cur[j] {
+			out[i] = j + 1
+			i++
+			j++
+		} else if lcs[i+1][j] >= lcs[i][j+1] {
+			i++
+		} else {
+			j++
+		}
+	}
+	// unaligned old statements: squeeze between aligned neighbours
+	for i := 0; i < n; i++ {
+		if out[i] != 0 {
+			continue
+		}
+		lo := 0
+		for k := i - 1; k >= 0; k-- {
+			if out[k] != 0 {
+				lo = out[k]
+				break
+			}
+		}
+		hi := m + 1
+		gapOld := 1
+		for k := i + 1; k < n; k++ {
+			if out[k] != 0 {
+				hi = out[k]
+				break
+			}
+			gapOld++
+		}
+		for k := i - 1; k >= 0 && out[k] == 0; k-- {
+			gapOld++
+		}
+		if hi-lo-1 == gapOld {
+			// as many current statements as old ones in the gap: keep their order
+			pos := 0
+			for k := i - 1; k >= 0 && out[k] == 0; k-- {
+				pos++
+			}
+			out[i] = lo + 1 + pos
+		}
+	}
+	return out
+}
+
+// rebindOrdinal returns the ordinal to use for a clause written for <kind>#ord of function key.
+func (p *Program) rebindOrdinal(key, kind string, ord int, headers []string) int {
+	loadOrdinalLock()
+	if p.lockOut != nil {
+		if p.lockOut[key] == nil {
+			p.lockOut[key] = map[string][]string{}
+		}
+		p.lockOut[key][kind] = headers
+		return ord
+	}
+	old := ordinalLock[key][kind]
+	if len(old) == 0 || ord < 1 || ord > len(old) {
+		return ord
+	}
+	same := len(old) == len(headers)
+	if same {
+		for i := range old {
+			if old[i] != headers[i] {
+				same = false
+			}
+		}
+	}
+	if same {
+		return ord
+	}
+	al := alignOrdinals(old, headers)
+	if n := al[ord-1]; n != 0 && n != ord {
+		msg := fmt.Sprintf("%s: %s#%d re-bound to %s#%d (statements were inserted or removed above it)", key, kind, ord, kind, n)
+		dup := false
+		for _, r := range p.rebound {
+			if r == msg {
+				dup = true
+			}
+		}
+		if !dup {
+			p.rebound = append(p.rebound, msg)
+		}
+		return n
+	} else if n == 0 {
+		return ord
+	}
+	return ord
+}
+
 // loopsOf lists for/range statements of a body in source order, not descending into function literals.
 func loopsOf(body ast.Node) []ast.Stmt {
 	var out []ast.Stmt
@@ -1270,10 +1424,17 @@ func (p *Program) fillContract(fc *FuncContract, clauses []*rawClause, body *ast
 				p.bindIssues = append(p.bindIssues, bindIssue{fc.key, fmt.Sprintf("%s: if statement of `%s` lies inside a function literal", rc.where, rc.atText)})
 				continue
 			}
-			rc.scope, rc.ord = "if", ord
+			rc.scope, rc.ord, rc.fromIfat = "if", ord, true
 			fallthrough
 		case "if":
 			ifs := ifsOf(body)
+			if !rc.fromIfat {
+				var hs []string
+				for _, x := range ifs {
+					hs = append(hs, p.stmtHeader(x))
+				}
+				rc.ord = p.rebindOrdinal(fc.key, "if", rc.ord, hs)
+			}
 			if rc.ord < 1 || rc.ord > len(ifs) {
 				p.bindIssues = append(p.bindIssues, bindIssue{fc.key, fmt.Sprintf("%s: %s has no if#%d", rc.where, fc.key, rc.ord)})
 				continue
@@ -1307,6 +1468,13 @@ func (p *Program) fillContract(fc *FuncContract, clauses []*rawClause, body *ast
 			fc.guards[rc.ord] = append(fc.guards[rc.ord], &GuardClause{when: whenCl, spec: cl})
 			continue
 		case "loop":
+			{
+				var hs []string
+				for _, l := range loops {
+					hs = append(hs, p.stmtHeader(l))
+				}
+				rc.ord = p.rebindOrdinal(fc.key, "loop", rc.ord, hs)
+			}
 			if rc.ord < 1 || rc.ord > len(loops) {
 				p.bindIssues = append(p.bindIssues, bindIssue{fc.key, fmt.Sprintf("%s: %s has no loop#%d", rc.where, fc.key, rc.ord)})
 				continue
